@@ -11,6 +11,22 @@ Notation extR := (@ext R).
 (* ---------------------------------------------------------------- hypotheses *)
 (* what the theorems assume of a tree on an n-dimensional space: convexity-preserving
    scalars and vectors of the right length *)
+(* consistency of an abstract conjugate pair on an n-dimensional space: lengths are preserved, and for
+   positive weights the two sides satisfy Fenchel-Young, equality at the gradient and the Moreau identity *)
+Definition pair_len (n : nat) (P : @cpair R) : Prop :=
+  (forall w b s x p, length x = n -> pp P b w s x = Ok p -> length p = n) /\
+  (forall w b x g, length x = n -> pg P b w x = Ok g -> length g = n).
+Definition pair_moreau (n : nat) (P : @cpair R) : Prop :=
+  forall w b s x p q, length w = n -> length x = n -> 0 < s -> pp P b w s x = Ok p ->
+    pp P (negb b) w (1 / s) (vscal (1 / s) x) = Ok q -> vadd p (vscal s q) = x.
+Definition pair_ok (n : nat) (P : @cpair R) : Prop :=
+  pair_len n P /\ pair_moreau n P /\
+  forall w, wpos w -> length w = n -> pw P w = true ->
+  (forall b x y vx vy, length x = n -> length y = n -> pv P b w x = Ok vx -> pv P (negb b) w y = Ok vy ->
+     match eadd vx vy with EFin v => wdot w x y <= v | EPInf => True | EJunk => False end) /\
+  (forall b x g vx vg, length x = n -> pg P b w x = Ok g -> pv P b w x = Ok vx -> pv P (negb b) w g = Ok vg ->
+     eadd vx vg = EFin (wdot w x g)).
+
 Fixpoint wf (n : nat) (e : fxR) : Prop :=
   match e with
   | FLp _ | FIndBall _ | FL2Sq | FConst _ | FIndZero _ => True
@@ -26,11 +42,23 @@ Fixpoint wf (n : nat) (e : fxR) : Prop :=
   | FTransl f t => length t = n /\ wf n f
   | FQuadPert f a u _ => 0 <= a /\ length u = n /\ wf n f
   | FSep2 k f g => (k <= n)%nat /\ wf k f /\ wf (n - k) g
+  | FPair _ P => pair_ok n P
+  end.
+
+(* the weights are admissible for every abstract pair of the tree (a power-space pair needs the same
+   weights on every component); trivially true for all other nodes *)
+Fixpoint wadm (w : Rvec) (e : fxR) : Prop :=
+  match e with
+  | FPair _ P => pw P w = true
+  | FSep2 k f g => wadm (firstn k w) f /\ wadm (skipn k w) g
+  | FLeft _ f | FRight _ f | FRightVec _ f | FScalarSum f _ | FTransl f _ | FQuadPert f _ _ _ | FDefConj f | FBreg f => wadm w f
+  | FSum f g | FInfConv f g => wadm w f /\ wadm w g
+  | _ => True
   end.
 
 Ltac fxind e :=
   induction e as [p|p| |c|c|g|a b c|s f IHf|s f IHf|v f IHf|f IHf g IHg|f IHf c|f IHf t|f IHf a u c
-                 |f IHf g IHg|f IHf|q IHq|k f IHf g IHg].
+                 |f IHf g IHg|f IHf|q IHq|k f IHf g IHg|pb P].
 
 Lemma fin_ok_eq (a b : R) : a = b -> @Ok extR (EFin a) = Ok (EFin b).
 Proof. intros ->; reflexivity. Qed.
@@ -67,40 +95,6 @@ Proof.
   destruct (Rltb_spec 0 s') as [H1|H1].
   - rewrite Rltb_true by nra. cbn [escal]; numR. rewrite Rltb_true by assumption. reflexivity.
   - rewrite Rltb_false by nra. reflexivity.
-Qed.
-
-(* ------------------------------------------------- errors do not depend on x *)
-Fixpoint verr (e : fxR) : option err :=
-  match e with
-  | FQuadS None None _ => Some EOther
-  | FInfConv _ _ | FDefConj _ => Some ENotImpl
-  | FLeft _ f | FRight _ f | FRightVec _ f | FScalarSum f _ | FTransl f _ | FQuadPert f _ _ _ | FBreg f => verr f
-  | FSum f g | FSep2 _ f g => match verr f with Some er => Some er | None => verr g end
-  | _ => None
-  end.
-
-Lemma val_verr e : forall w x,
-  match verr e with Some er => val e w x = Err er | None => exists v, val e w x = Ok v end.
-Proof.
-  fxind e; intros w x; cbn [verr value]; eauto; try (destruct a, b; eauto; fail); unfold radd;
-  repeat match goal with
-  | IH : forall w x, match verr ?f with _ => _ end |- context [value _ _ ?f ?w' ?x'] =>
-      let H := fresh in pose proof (IH w' x') as H; clear IH;
-      destruct (verr f); [rewrite H; reflexivity | destruct H as [? ->]; cbn [rbind]]
-  end; eauto.
-Qed.
-
-Lemma val_err_indep e w x w' x' er : val e w x = Err er -> val e w' x' = Err er.
-Proof.
-  intros Hv. pose proof (val_verr e w x) as H1. pose proof (val_verr e w' x') as H2.
-  destruct (verr e).
-  - rewrite H1 in Hv. rewrite H2. assumption.
-  - destruct H1 as [v H1]. rewrite H1 in Hv. discriminate.
-Qed.
-Lemma val_ok_indep e w x w' x' v : val e w x = Ok v -> exists v', val e w' x' = Ok v'.
-Proof.
-  intros Hv. pose proof (val_verr e w x) as H1. pose proof (val_verr e w' x') as H2.
-  destruct (verr e); [rewrite H1 in Hv; discriminate | assumption].
 Qed.
 
 (* ------------------------------------------- transparency of the constructors *)
